@@ -34,6 +34,7 @@ type Obligation struct {
 	Decided  string // non-empty: verdict fixed at generation time (unsat = holds, sat = refuted with Output as reason)
 	Known    bool   // listed as a known finding: expected to fail, short timeout, no retry
 	Replay   *ReplayInfo // how to rebuild the function's inputs from a model (nil: not in the replayable class)
+	Guard    *Obligation // call-cover: the state just before the call; a refuted cover only counts if this one is satisfiable
 }
 
 const prelude = `
@@ -253,6 +254,17 @@ func DischargeAll(obls []*Obligation, scratch string, timeoutS int, par int) {
 			defer wg.Done()
 			defer func() { <-sem }()
 			Discharge(o, scratch, timeoutS, "")
+			if o.Guard != nil && o.Result == "unsat" {
+				// the state after assuming the callee's postconditions is contradictory: a violation only if the state
+				// just before the call was reachable (otherwise the call site itself is dead code in the model)
+				Discharge(o.Guard, scratch, timeoutS, "")
+				if o.Guard.Result != "sat" {
+					o.Result = "sat"
+					o.Output += " | call site not reachable in the model (pre-call state: " + o.Guard.Result + ")"
+				} else {
+					o.Output += " | the state before the call is satisfiable, the state after assuming the callee's contract is not: the contract contradicts what the caller knows (missing assigns / wrong postcondition)"
+				}
+			}
 			want := "unsat"
 			if o.ExpectSat {
 				want = "sat"
